@@ -143,7 +143,7 @@ func (c01) Exec(ctx *core.Ctx, cs *core.Case) {
 		ctx.Count("model_rejects")
 	}
 	if len(input)%8 == 3 {
-		interfere(ctx, input)
+		interfereCase(ctx, input, base, hasBase)
 	}
 	entries := 1
 	if hasBase {
